@@ -22,6 +22,10 @@ CONSTANTS
   MaxMigs = 1
   StaleTableAtStart = FALSE
   MaxFollowed = 0
+  DeathKinds = {"refused"}
+  RefreshOnTimeout = TRUE
+  PromotedFlags = {{"master"}}
+  ParserSkips = {}
 INVARIANTS EqualsReference EffectOnce SingleCopy CopyIsReference NoLostKey ErrorsOnlyWhileStale RedirectKeepsOrder
 CONSTRAINT HopBound
 CHECK_DEADLOCK FALSE
